@@ -458,11 +458,19 @@ func PairsKey(pairs []Pair) string {
 // SelectedPairs: every (type, field) a subgraph query can deliver at any depth, by walking the
 // query with the subgraph's schema (possible types of abstract positions included).
 func SelectedPairs(sch *fedlab.Schema, query string) (map[[2]string]bool, error) {
+	all, _, err := SelectedPairsNested(sch, query)
+	return all, err
+}
+
+// SelectedPairsNested also returns the pairs selected BELOW a top-level field of the request
+// (nested objects an entity or root field brings along).
+func SelectedPairsNested(sch *fedlab.Schema, query string) (map[[2]string]bool, map[[2]string]bool, error) {
 	doc, report := astparser.ParseGraphqlDocumentString(query)
 	if report.HasErrors() {
-		return nil, errors.New(report.Error())
+		return nil, nil, errors.New(report.Error())
 	}
 	out := map[[2]string]bool{}
+	nested := map[[2]string]bool{}
 	named := func(t *fedlab.TypeRef) string {
 		for t != nil && t.Of != nil {
 			t = t.Of
@@ -474,7 +482,7 @@ func SelectedPairs(sch *fedlab.Schema, query string) (map[[2]string]bool, error)
 	}
 	var walk func(typ string, set int, depth int)
 	walk = func(typ string, set int, depth int) {
-		if depth > 40 {
+		if depth > 60 {
 			return
 		}
 		for _, sref := range doc.SelectionSets[set].SelectionRefs {
@@ -487,7 +495,7 @@ func SelectedPairs(sch *fedlab.Schema, query string) (map[[2]string]bool, error)
 				}
 				if name == "_entities" {
 					if doc.Fields[sel.Ref].HasSelections {
-						walk("_Entity", doc.Fields[sel.Ref].SelectionSet, depth+1)
+						walk("_Entity", doc.Fields[sel.Ref].SelectionSet, 0)
 					}
 					continue
 				}
@@ -503,11 +511,14 @@ func SelectedPairs(sch *fedlab.Schema, query string) (map[[2]string]bool, error)
 					}
 					if fd := td.Field(name); fd != nil {
 						out[[2]string{t, name}] = true
+						if depth >= 10 {
+							nested[[2]string{t, name}] = true
+						}
 						next = named(fd.Type)
 					}
 				}
 				if next != "" && doc.Fields[sel.Ref].HasSelections {
-					walk(next, doc.Fields[sel.Ref].SelectionSet, depth+1)
+					walk(next, doc.Fields[sel.Ref].SelectionSet, depth+10)
 				}
 			case ast.SelectionKindInlineFragment:
 				tc := doc.InlineFragmentTypeConditionNameString(sel.Ref)
@@ -525,7 +536,7 @@ func SelectedPairs(sch *fedlab.Schema, query string) (map[[2]string]bool, error)
 			walk(sch.Query, doc.OperationDefinitions[n.Ref].SelectionSet, 0)
 		}
 	}
-	return out, nil
+	return out, nested, nil
 }
 
 // Leq: a equals b except that sub-trees of b may be null in a ("a is b with parts nulled").
